@@ -237,7 +237,7 @@ func sgTokenStrip(t string) string { return t }
 func sgErrClass(rec *sgRec) string {
 	target, isEdge := sgEdges[rec.Pre.State+"|"+rec.Side+"|"+rec.Type]
 	if isEdge && rec.Post.State == target && rec.Pre.State != rec.Post.State {
-		return "failed-after-the-transition-was-committed"
+		return "failed-after-the-transition-was-committed:" + sgErrCause(rec.Err)
 	}
 	if isEdge && rec.Post.State == target {
 		return "failed-after-the-description-was-stored"
@@ -1050,3 +1050,22 @@ func sgOriginMid(g *sgGenState, mid string) string {
 }
 
 func p0(rec *sgRec) *vfSDP { return vfParseSDP(rec.Desc.SDP) }
+
+// sgErrCause puts the error of a call that failed after it had changed the state into one of a
+// few named causes (the ones the open C03 findings list); anything else keeps its first words.
+func sgErrCause(e string) string {
+	l := strings.ToLower(e)
+	switch {
+	case strings.Contains(l, "ice-ufrag"), strings.Contains(l, "ice-pwd"), strings.Contains(l, "ice credentials"), strings.Contains(l, "ufrag"):
+		return "ice-credentials"
+	case strings.Contains(l, "fingerprint"):
+		return "fingerprint"
+	case strings.Contains(l, "codec"), strings.Contains(l, "payload type"):
+		return "codecs"
+	case strings.Contains(l, "mid"):
+		return "mid"
+	case strings.Contains(l, "candidate"):
+		return "candidate"
+	}
+	return "other-cause-" + sgFirstWords(e)
+}
